@@ -254,10 +254,19 @@ fn check_positions() -> (u64, Option<(String, String)>) {
     }
     // (4) a generic parameter of ANOTHER rule is not in scope
     if *is_ref && !generic_t {
-      let doc = format!("{}w<p> = [p]\nv = w<int>\n", tpl.replace('X', "p"));
-      tried += 1;
-      if let Some(r) = check(&doc, Some("p")) {
-        return (tried, Some(r));
+      // ... in every relative order: the other generic rule below, directly above, and above with a
+      // non-generic rule in between (a scope that is only replaced, never restored, leaks downwards)
+      let t = tpl.replace('X', "p");
+      for doc in [
+        format!("{}w<p> = [p]\nv = w<int>\n", t),
+        format!("w<p> = [p]\n{}v = w<int>\n", t),
+        format!("w<p> = [p]\nv = w<int>\n{}", t),
+        format!("w<q, p> = [q, p]\nv = w<int, tstr>\nw2<q> = [q]\n{}", t),
+      ] {
+        tried += 1;
+        if let Some(r) = check(&doc, Some("p")) {
+          return (tried, Some(r));
+        }
       }
     }
   }
